@@ -72,6 +72,9 @@ def run(repo, run, tier):
     step_norm_freshness(repo, run)
     residual_bounds(repo, run)
     linear_solve_failures_surface(repo, run)
+    # a finite-difference Jacobian kept between calls differentiates the residual of the call that built it (its additional_args): keyed by everything it depends on, or not kept
+    from .common import memo_discipline
+    memo_discipline(repo, run, "C15.9", [OPT, "desolver/utilities/utilities.py"], "the solver modules")
 
 
 # ------------------------------------------------------------------------------------------------
